@@ -98,6 +98,7 @@ class Path:
         self.attr_hooks: dict = {}     # (clsname, attr) -> fn(P, obj)
         self.loop_specs: dict = {}     # (funcqual, ordinal) -> spec
         self.steps = 0
+        self.nforks = 0
         self.ghost: dict = {}
 
     # ------------------------------------------------------------------ fresh symbols
@@ -156,21 +157,29 @@ class Path:
         if z3.is_false(c):
             return False
         pos = len(self.decisions)
+        wf = False
         if pos < len(self.prefix):
-            d = self.prefix[pos]
+            d, wf = self.prefix[pos]
         else:
             t_ok = self.feasible(c)
             f_ok = self.feasible(z3.Not(c))
             if t_ok and f_ok:
-                self.ex.push(self.decisions + [False])
-                d = True
+                wf = True
+                k, D = self.ex.shard
+                if self.nforks < D:
+                    d = not bool((k >> self.nforks) & 1)
+                else:
+                    self.ex.push(self.decisions + [(False, True)])
+                    d = True
             elif t_ok:
                 d = True
             elif f_ok:
                 d = False
             else:
                 raise PathEnd()
-        self.decisions.append(d)
+        if wf:
+            self.nforks += 1
+        self.decisions.append((d, wf))
         lit = c if d else z3.Not(c)
         self.pc.append(lit)
         self.solver.add(lit)
@@ -277,8 +286,6 @@ class Path:
             other = b if a is None else a
             if isinstance(other, (SInt, SBool, SStr, SSeq, SEnum, SObj, SMap)):
                 return False
-            if isinstance(other, Opaque):
-                raise Unsupported("opaque == None")
             return False
         if isinstance(a, (SInt, SBool)) or isinstance(b, (SInt, SBool)):
             if isinstance(a, (int, bool, SInt, SBool)) and isinstance(b, (int, bool, SInt, SBool)):
@@ -419,6 +426,8 @@ class Path:
                 return s[i]
             # symbolic index into concrete list -> union
             i = zint(i)
+            if len(s) == 0:
+                return Opaque("bottom")
             alts = [(i == k, s[k]) for k in range(len(s))]
             return self.merge_alts(alts)
         if isinstance(s, SSeq):
@@ -490,6 +499,25 @@ class Path:
             raise Unsupported("iteration over symbolic map")
         if isinstance(v, str):
             return list(v)
+        from . import models, loops
+        if isinstance(v, models.Iter):
+            if v.pos == 0:
+                return v.seq
+            return self.seq_slice(v.seq, v.pos, None)
+        if isinstance(v, loops.SCat):
+            if all(not (isinstance(p, tuple) and p and isinstance(p[0], loops.SFlat)) for p in v.parts):
+                out = []
+                for p in v.parts:
+                    out = self.seq_concat(out, p)
+                return out
+            return v
+        if isinstance(v, SObj):
+            cname = self.resolve_cls(v)
+            m = self.find_method(cname, "__iter__")
+            if m is not None:
+                return self.to_seq(self.call_closure(m, [v], {}))
+        if v is None:
+            raise PyExc(self.mk_exc("TypeError", "'NoneType' object is not iterable"))
         raise Unsupported(f"iteration over {type(v).__name__}")
 
     def seq_concat(self, a, b):
@@ -540,7 +568,9 @@ class Path:
             out = []
             for s, l in zip(seqs, lens):
                 c = z3.simplify(zi < l)
-                if z3.is_true(c):
+                if isinstance(s, (list, tuple)) and len(s) == 0:
+                    out.append(fill)
+                elif z3.is_true(c):
                     out.append(self.seq_at(s, i))
                 elif z3.is_false(c):
                     out.append(fill)
@@ -1060,7 +1090,23 @@ class Path:
 
     def finish_generator(self, fr):
         """Eager generator semantics: the generator's value is the sequence of its yields."""
+        from . import loops
         segs = fr.yields
+        if any(s[0] == "flat" or (s[0] == "from" and isinstance(s[1], loops.SCat)) for s in segs):
+            parts = []
+            for s in segs:
+                if s[0] == "item":
+                    if parts and isinstance(parts[-1], list):
+                        parts[-1].append(s[1])
+                    else:
+                        parts.append([s[1]])
+                elif s[0] == "flat":
+                    parts.append((s[1], "yield"))
+                elif isinstance(s[1], loops.SCat):
+                    parts.extend(s[1].parts)
+                else:
+                    parts.append(s[1])
+            return loops.SCat(parts)
         out = []
         for s in segs:
             if isinstance(s, tuple) and s and s[0] == "item":
@@ -1431,6 +1477,9 @@ class Path:
             it = self.choose(it)
         spec = self.loop_specs.get(self.loop_key(st))
         seq = self.to_seq(it)
+        from . import loops as _loops
+        if isinstance(seq, _loops.SCat):
+            raise Unsupported(f"iteration over a flat-map summary at line {st.lineno}")
         if isinstance(seq, (list, tuple)) and spec is None:
             broke = False
             for x in list(seq):
@@ -1494,7 +1543,10 @@ class Path:
         return self.getattr(self.eval(e.value), e.attr)
 
     def e_Tuple(self, e):
-        return tuple(self.eval_elts(e.elts))
+        r = self.eval_elts(e.elts)
+        if isinstance(r, SSeq):
+            return SSeq(r.len, r.at, kind="tuple", tag=r.tag)
+        return tuple(r)
 
     def e_List(self, e):
         r = self.eval_elts(e.elts)
@@ -1581,7 +1633,8 @@ class Path:
         fr = self.frame
         if fr.yields is None:
             raise Unsupported("yield from in context manager")
-        fr.yields.append(("from", self.to_seq(v)))
+        from . import loops
+        fr.yields.append(("from", v if isinstance(v, loops.SCat) else self.to_seq(v)))
         return None
 
     def e_Await(self, e):
@@ -1813,8 +1866,9 @@ def _to_load(t):
 class Explorer:
     """Runs a driver over all feasible paths (fork by replaying decision prefixes)."""
 
-    def __init__(self, index: SourceIndex, max_paths=20000, feas_timeout_ms=2000,
-                 max_call_depth=40, max_steps=200000, max_unroll=64):
+    def __init__(self, index: SourceIndex, max_paths=20000, feas_timeout_ms=250,
+                 max_call_depth=40, max_steps=200000, max_unroll=64, shard=(0, 0)):
+        self.shard = shard
         self.index = index
         self.work: list[list] = [[]]
         self.max_paths = max_paths
@@ -1844,11 +1898,16 @@ class Explorer:
             P = Path(self, prefix, n)
             try:
                 driver(P)
-                results.append((P, "ok"))
+                status = "ok"
             except PathEnd:
-                results.append((P, "cut"))
+                status = "cut"
             except Unsupported as u:
-                self.unsupported.append((P.path_id, str(u)))
-                results.append((P, "unsupported:" + str(u)))
+                status = "unsupported:" + str(u)
+            k, D = self.shard
+            if P.nforks < D and (k >> P.nforks) != 0:
+                continue  # duplicate of a path owned by a lower shard
+            if status.startswith("unsupported:"):
+                self.unsupported.append((P.path_id, status[12:]))
+            results.append((P, status))
         self.paths = results
         return results
